@@ -425,6 +425,14 @@ impl<'tcx> Cx<'tcx> {
         o.put("span", J::s(&self.span_range(body.span)));
         o.put("sp", self.span(body.span));
         o.put("argc", J::i(body.arg_count as i128));
+        // the item's own type parameters, in the order a call's `targs` lists them (parent generics first)
+        let mut tparams = Vec::new();
+        for ga in ty::GenericArgs::identity_for_item(tcx, did).iter() {
+            if let Some(t) = ga.as_type() {
+                tparams.push(J::s(&self.ty(t)));
+            }
+        }
+        o.put("tparams", J::Arr(tparams));
         let mut locals = Vec::new();
         for (_l, decl) in body.local_decls.iter_enumerated() {
             locals.push(J::s(&self.ty(decl.ty)));
